@@ -592,6 +592,7 @@ func c13Batch(c *Check, tier string) int {
 		batch.Add("%s", l)
 	}
 	wall := time.Since(start).Seconds()
+	findings.PrintUnmet("C13", knownSeen)
 	cov := map[string]interface{}{
 		"batch_fingerprint":   batch.HashHex(),
 		"evaluations":         evals,
